@@ -313,8 +313,9 @@ def run(ctx: Ctx):
 
 
 META = {
-    "technique": "abstract interpretation with symbolic terms of the three enthalpy routines; algebraic comparison with the "
-                 "closed forms; enumeration of the omission paths",
+    "technique": "abstract interpretation with symbolic terms of the three enthalpy routines; algebraic comparison with the clos"
+                 "ed forms; a concrete multi-loading scenario for the omission rule and the loading / enthalpy pairing; getter o"
+                 "utcome table for the adsorbate constants used",
     "level_text": "Static: isosteric_enthalpy_raw, enthalpy_sorption_whittaker (with Langmuir and Toth model pressures substituted "
                   "symbolically) and initial_enthalpy_point are interpreted with all quantities symbolic; the returned terms are "
                   "normalised against -R*slope/1000 and the Whittaker closed form for all parameters and loadings, and every "
